@@ -168,12 +168,12 @@ HIST_NOTE = ("pool of SU_vector slots and user buffers; alphabet = reset, sized 
 CHECKS["C08"] = dict(
     level=MC, engine="history-explorer",
     technique="explicit-state breadth-first search over operation histories replayed on the real objects, to closure of a canonical abstract state; reference model of value semantics with frame conditions",
-    rule=HIST_NOTE + "; quick: 2 slots + 1 buffer, dims {2,3} to closure and 3 slots + 2 buffers to depth 3; thorough: 3 slots + 2 buffers, dims {2,3} and {2,3,4}, all three alignment modes, to closure. "
+    rule=HIST_NOTE + "; quick: 2 slots + 1 buffer (both alignment answers) and 3 slots + 2 buffers (alignment 0 mod 32), dims {2,3}, to closure; thorough: 3 slots + 2 buffers, dims {2,3} and {2,3,4}, all three alignment modes, to closure. "
          "Oracle: destination holds the model value, every other slot and buffer bit-identical (frame), consumed sources valid and exclusive, no two slots on one block, external storage never replaced or freed, ledger clean",
     assumptions=["component values are not part of the abstract state (no branch of the storage logic reads a component)", "at most 3 vectors and 2 user buffers alive at once",
                  "cached blocks enter the key as a multiset of (length, alignment)"],
     runs=[run("hist_c08_small", "hist.cpp", "asan", args=["--mode", "c08", "--slots", "2", "--bufs", "1", "--dims", "2.3", "--align", "0.1"], tiers=("quick",)),
-          run("hist_c08_d3", "hist.cpp", "asan", args=["--mode", "c08", "--slots", "3", "--bufs", "2", "--dims", "2.3", "--align", "0", "--depth", "3"], tiers=("quick",)),
+          run("hist_c08_3slots", "hist.cpp", "asan", args=["--mode", "c08", "--slots", "3", "--bufs", "2", "--dims", "2.3", "--align", "0"], tiers=("quick",)),
           run("hist_c08_full", "hist.cpp", "asan", args=["--mode", "c08", "--slots", "3", "--bufs", "2", "--dims", "2.3", "--align", "0.1.2", "--deadline", "3000"], tiers=("thorough",)),
           run("hist_c08_d4", "hist.cpp", "asan", args=["--mode", "c08", "--slots", "3", "--bufs", "2", "--dims", "2.3.4", "--align", "0.1", "--deadline", "5000"], tiers=("thorough",))],
 )
@@ -239,5 +239,18 @@ CHECKS["C19"] = dict(
     assumptions=["sequential consistency (on x86-TSO each plain store is followed by a locked cmpxchg before it can matter to another thread)", "at most 3 threads, 3 operations each", "deviation bound 1 for spurious CAS failures"],
     runs=[run("c19_O0", c19_srcs("O0"), "vsched", nolib=True, shards=16, args=["--opt", "O0"]),
           run("c19_O2", c19_srcs("O2"), "vsched", nolib=True, shards=16, args=["--opt", "O2"])],
+)
+
+CHECKS["C18"] = dict(
+    level=MC, engine="schedule-explorer",
+    technique="preemption-bounded exhaustive exploration of real pthreads serialised by a baton (scheduling points at channel operations and at every operator new[]/delete[]), plus a separate free-running ThreadSanitizer pass",
+    rule="bodies: own vectors (sum, commutators, both evolutions, rotation, UTransform -> matrix exponential), hand-over ring (a block allocated on one thread is released on the next and reused there), const queries of "
+         "all expectation-value overloads on one shared evolved solver, thread exit with a filled cache. Explorer pass (ASan, arena allocator): every interleaving of 2 threads with at most 2 preemptions (quick) / 2 and 3 "
+         "threads with bounds up to 4 (thorough), bound iterated 0,1,2,..; oracle: each thread's results bit-identical to the sequential schedule and to the main thread's values, ledger clean, nothing retained after all "
+         "threads ended, blocks cached by a thread released when it ends. Race pass (clang -fsanitize=thread, free running, 20 repetitions per body): any report is a violation. "
+         "states/transitions = choice points executed, traces = complete executions",
+    assumptions=["GSL is not instrumented", "at most 3 threads", "race freedom is decided by the happens-before detector of the free-running pass; the explorer enumerates interleavings at synchronisation / allocation granularity"],
+    runs=[run("c18", ["c18.cpp"], "asan", shards=4),
+          run("c18_tsan", [("c18.cpp", ["-DC18_FREE"])], "tsan", env={"TSAN_OPTIONS": "halt_on_error=0:exitcode=66:second_deadlock_stack=1"})],
 )
 NOT_APPLICABLE = {}
